@@ -25,6 +25,7 @@ import (
 	"testing/cryptotest"
 
 	"github.com/tink-crypto/tink-go/v2/aead"
+	"github.com/tink-crypto/tink-go/v2/core/registry"
 	"github.com/tink-crypto/tink-go/v2/hybrid/ecies"
 	"github.com/tink-crypto/tink-go/v2/hybrid/hpke"
 	"github.com/tink-crypto/tink-go/v2/internal/internalapi"
@@ -36,7 +37,6 @@ import (
 	"github.com/tink-crypto/tink-go/v2/testing/fakekms"
 	"github.com/tink-crypto/tink-go/v2/verifsim/catalog"
 	"github.com/tink-crypto/tink-go/v2/verifsim/core"
-	"github.com/tink-crypto/tink-go/v2/verifsim/kmsfake"
 	"github.com/tink-crypto/tink-go/v2/verifsim/simrng"
 	"github.com/tink-crypto/tink-go/v2/verifsim/stubkm"
 	"pgregory.net/rapid"
@@ -53,16 +53,15 @@ var outerT *testing.T
 
 func TestMain(m *testing.M) {
 	requireCustomRand()
+	// Nothing here may make tink draw randomness: a library that buffers random
+	// bytes would carry bytes the harness never saw into the first runs. So the
+	// fake-KMS client is registered directly and the KEK URI is a constant.
 	stubkm.Register()
-	kmsfake.Register()
-	func() {
-		defer simrng.Install(simrng.New(0x6b656b))()
-		uri, err := fakekms.NewKeyURI()
-		if err != nil {
-			panic(err)
-		}
-		fakeKEKURI = uri
-	}()
+	if c, err := fakekms.NewClient("fake-kms://"); err != nil {
+		panic(err)
+	} else {
+		registry.RegisterKMSClient(c)
+	}
 	core.DeclareFaults("rng-short-read", "maybe-read-byte", "id-collision-scripted", "id-collision-deleted-scripted", "forced-scalar-rejection")
 	core.DeclareProbes("redraw-on-collision", "scripted-fresh-id", "raw-key-id-draw", "same-message-signed-twice", "second-primitive-same-key",
 		"second-handle-same-key", "subtle-constructor", "writer-repeat-on-primitive", "interleaved-keys", "full-sweep", "edge-position",
@@ -1462,8 +1461,8 @@ func legacyTemplates() []legacyTemplate {
 	return legacyList
 }
 
-// fakeKEKURI: a fake-kms key URI (fixed per process, drawn under a throw-away RNG in TestMain).
-var fakeKEKURI string
+// fakeKEKURI: a fake-kms key URI (an AES128-GCM test keyset encoded in the URI, generated once with fakekms.NewKeyURI).
+const fakeKEKURI = "fake-kms://CM-F1JMOElQKSAowdHlwZS5nb29nbGVhcGlzLmNvbS9nb29nbGUuY3J5cHRvLnRpbmsuQWVzR2NtS2V5EhIaEE1U0GicPNfwgYIBMyus-mwYARABGM-F1JMOIAE"
 
 func (w *world) mgrAdd() {
 	t, r, g := w.t, w.r, w.g
